@@ -149,8 +149,21 @@ pub fn history_case(ops: &[HOp], dir: &std::path::Path) -> Vec<(&'static str, Js
                     }
                 }
             }
+            // C01: exactly one result per id currently in the parser, each tagged with its own id
+            let validated = p.validate();
+            let mut ids_ok = validated.len() == abs.len();
+            for (id, _) in abs.iter() {
+                match validated.get(&PathBuf::from(id)) {
+                    Some(fr) => {
+                        if fr.id != PathBuf::from(id) {
+                            ids_ok = false;
+                        }
+                    }
+                    None => ids_ok = false,
+                }
+            }
             // compare with a fresh parser holding only the surviving pairs
-            let got = path_results(&p.validate());
+            let got = path_results(&validated);
             let mut fresh: Parser<PathBuf> = Parser::new();
             for (id, c) in abs.iter().rev() {
                 fresh.add_content(PathBuf::from(id), c);
@@ -160,7 +173,11 @@ pub fn history_case(ops: &[HOp], dir: &std::path::Path) -> Vec<(&'static str, Js
             if !same && first_bad.is_none() {
                 first_bad = Some((i, got.clone(), want));
             }
-            steps.push(Json::obj(vec![("same_as_fresh", Json::Bool(same)), ("io", io_result)]));
+            steps.push(Json::obj(vec![
+                ("same_as_fresh", Json::Bool(same)),
+                ("ids_ok", Json::Bool(ids_ok)),
+                ("io", io_result),
+            ]));
         }
         // syntax stage of every distinct content ever added (the model's `parse` table)
         contents.sort();
